@@ -388,8 +388,10 @@ class Report:
         if self.cov['states'] < 1 or self.cov['transitions'] < 1 or not self.cov['samples']:
             log('BROKEN-CHECK: evidence incomplete (states/transitions/samples)')
             rc = rc or 2
-        ensure(os.path.join(ROOT, 'evidence'))
-        with open(os.path.join(ROOT, 'evidence', self.pid + '.json'), 'w') as f:
+        # runs against a scratch copy (mutant campaign, VERIF_REPO set) must not overwrite the evidence of /repo itself
+        evdir = os.path.join(ROOT, 'evidence') if os.path.realpath(repo()) == '/repo' else os.path.join(WORK, 'evidence_scratch')
+        ensure(evdir)
+        with open(os.path.join(evdir, self.pid + '.json'), 'w') as f:
             json.dump(ev, f, indent=1, default=str)
         log('%s %s: %s in %.1fs (states=%d transitions=%d impl_traces=%d evaluations=%d nontrivial=%d)' % (
             self.pid, self.tier, 'OK' if rc == 0 else ('VIOLATION' if rc == 1 else 'BROKEN'), wall,
